@@ -10,7 +10,7 @@ for p in $src/patch-*.diff; do
   [ -s "$p" ] || continue
   k=$(basename $p .diff); k=${k#patch-}
   work=$(mktemp -d /tmp/bv-XXXXXX)
-  rsync -a --exclude .git --exclude _deliver /repo/ $work/repo/
+  rsync -a --exclude .git --exclude _deliver ${BENIGN_BASE:-/repo}/ $work/repo/
   if ! (cd $work/repo && git apply $p 2> $work/apply.err); then echo "$id-$k: patch does not apply"; rm -rf $work; continue; fi
   (cd $work/repo && go build ./... > $work/build.log 2>&1); b=$?
   (cd $work/repo && go test -vet=off -count=1 ./... > $work/suite.log 2>&1); s=$?
